@@ -14,7 +14,7 @@ PROPERTY = "C10"
 LEVEL = "exploration"
 RULE = ("case = program that puts variables of each kind (numeric/string scalar, numeric/string array, DIMensioned or implicit, "
         "1-3 dimensions) into chosen syntactic positions (assignment target, expression, only inside function arguments, only "
-        "READ/INPUT target, only subscript, only PRINT, VARPTR) x default_str_storage in {32,33,80,255} x random valid per-name "
+        "READ/INPUT target, only subscript, only PRINT, VARPTR) x default_str_storage in {1,2,16,31,32,33,80,100,128,255} x random valid per-name "
         "size maps x initialize_vars; distinct = (set of (kind, positions), storage, map); non-trivial = declaration table checked")
 ASSUMPTIONS = ["the expected table: source bound + 1 per dimension, 11 per used dimension for never DIMensioned arrays; string size = "
                "per-name size if DIMensioned in the source and configured, else the requested default"]
@@ -226,9 +226,12 @@ def run_case(case):
     return obs
 
 
+STORAGES = [32, 33, 80, 255, 1, 16, 31, 128, 2, 100]
+
+
 def cases(tier, seed):
     n = 3000 if tier == "quick" else 400000
     yield {"seed": 1, "storage": 80, "init": True,
            "fixed": [(10, [("let", ("var", "A"), ("fn", "JOYSTK", [X.num(0)]), False)])]}
     for i in range(n):
-        yield {"seed": seed * 1299709 + i, "storage": [32, 33, 80, 255][i % 4], "init": (i // 4) % 2 == 0, "sample": i % 900 == 0}
+        yield {"seed": seed * 1299709 + i, "storage": STORAGES[i % len(STORAGES)], "init": (i // len(STORAGES)) % 2 == 0, "sample": i % 900 == 0}
